@@ -347,6 +347,14 @@ def run_history(ops):
                 continue
             k = op["f"] % len(framers)
             inst, fns = framers.pop(k)
+            own_house = [h for h in houses if h[0] is getattr(inst.store, "house", None)]
+            if own_house:
+                # prune() first makes the namespace of the framer's own house current (as clone() does), so the name is
+                # freed where the framer lives, whichever house's namespace was current before
+                for key in ("tasker", "log"):
+                    if cur[key] is not own_house[0][1][key]:
+                        own_house[0][1][key].switched = True
+                    cur[key] = own_house[0][1][key]
             ns = cur["tasker"]
             own = ns.names.get(inst.name) is inst
             labels.add("prune:own-namespace-current" if own else "prune:other-namespace-current")
@@ -539,16 +547,83 @@ def run_program(prog):
     return out, {"nontrivial": nontrivial, "labels": sorted(labels), "text": text}
 
 
+# ------------------------------------------------------------------------------ rear / raze at run time
+def rearraze_script(case):
+    """A moot whose frame `hosts` an ordinary (script declared) aux framer and, optionally, a named clone; clones of the
+    moot are reared and razed at run time."""
+    if case.get("twohouse"):
+        # a second house whose framer rears a clone of its own between the rear and the raze of the first house, so
+        # that the other house's namespace is the current one when the first house razes
+        return "\n".join([
+            "house alpha", "framer main be active first a1", "frame a1", "rear worker as mine be aux in frame a2", "go next",
+            "frame a2", "go next if elapsed >= 0.5", "frame a3", "enter", "raze %s in frame a2" % case["raze"],
+            "go a1 if elapsed >= 0.25", "framer worker be moot", "frame w0", "print w",
+            "framer helper be aux", "frame h0", "print h", "framer little be moot", "frame l0", "print l",
+            "house beta", "framer g be active first b1", "frame b1", "go next if elapsed >= 0.25", "frame b2",
+            "rear y as mine be aux in frame b3", "go next", "frame b3", "print b", "framer y be moot", "frame y0", "print y"]) + "\n"
+    L = ["house h", "framer main be active first f1", "frame f1"]
+    for _ in range(case["n"]):
+        L.append("rear worker as mine be aux in frame f2")
+    L += ["go next", "frame f2", "go next if elapsed >= 0.25", "frame f3", "enter", "raze %s in frame f2" % case["raze"],
+          "go %s if elapsed >= 0.125" % ("f1" if case["loop"] else "f4"), "frame f4", "print end",
+          "framer worker be moot", "frame w0"]
+    if case["host"] == 0:
+        L.append("aux helper")
+    if case["named"]:
+        L.append("aux little as kid")
+    L += ["go next if elapsed >= 0.5", "frame w1"]
+    if case["host"] == 1:
+        L.append("aux helper")
+    L += ["print w", "framer helper be aux", "frame h0", "print h", "framer little be moot", "frame l0", "print l"]
+    return "\n".join(L) + "\n"
+
+
+def check_rearraze(case):
+    from vp.flo.run import run_text
+    from ioflo.base import framing, excepting
+    text = rearraze_script(case)
+    tr = run_text(text, 24 if case.get("twohouse") else 10)
+    if tr["build"] != "True" or tr.get("exc"):
+        return [("rearraze-run:%s" % (tr.get("exc") or tr["build"]), "build %s / run %s %s\n%s" % (
+            tr["build"], tr.get("exc"), tr.get("exc_detail") or tr.get("detail"), text))]
+    names = set(tr.get("names") or [])
+    fails = []
+    for declared in ("main", "worker", "helper", "little"):
+        if declared not in names:
+            fails.append(("live-framer-unregistered", "after rear + raze the script declared framer %r is no longer registered under its "
+                          "name in the house's tasker / framer namespace (registry %r): an explicit duplicate of it would be accepted\n%s"
+                          % (declared, sorted(names), text)))
+    return fails
+
+
 # ------------------------------------------------------------------------------ harness glue
 def plan(tier):
     n = 7 if tier == "quick" else 14
     shards = [{"part": "ops", "i": i} for i in range(n)]
     shards += [{"part": "flo", "i": 100 + i} for i in range(1 if tier == "quick" else 2)]
+    shards.append({"part": "rearraze", "i": 300})
     return shards
 
 
 def work(shard, seed, tier):
     acc = Acc()
+    if shard["part"] == "rearraze":
+        import itertools
+        for n, raze, loop, host, named in itertools.product((1, 2), ("all", "first", "last"), (False, True), (0, 1, None), (False, True)):
+            case = {"rearraze": True, "n": n, "raze": raze, "loop": loop, "host": host, "named": named}
+            fails = check_rearraze(case)
+            acc.case(key=("rearraze", n, raze, loop, host, named), nontrivial=True, classes=["flo:rear-raze-at-run-time"],
+                     sample={"script": rearraze_script(case)} if (n, raze, loop, host, named) == (1, "all", False, 0, True) else None)
+            for sig, what in fails:
+                acc.fail(sig, what, case)
+        for raze in ("all", "first", "last"):
+            case = {"rearraze": True, "twohouse": True, "raze": raze, "n": 1, "loop": True, "host": None, "named": False}
+            fails = check_rearraze(case)
+            acc.case(key=("rearraze-twohouse", raze), nontrivial=True, classes=["flo:rear-raze-two-houses"], sample=None)
+            for sig, what in fails:
+                acc.fail(sig, what, case)
+        acc.note("rear / raze at run time: 72 scripts + 3 two-house scripts enumerated")
+        return acc
     if shard["part"] == "ops":
         n = 400 if tier == "quick" else 3500
         steps = 30 if tier == "quick" else 50
@@ -582,6 +657,8 @@ def work(shard, seed, tier):
 
 
 def replay(case):
+    if case.get("rearraze"):
+        return check_rearraze(case)
     if "prog" in case:
         return run_program(case["prog"])[0]
     return run_history(case["ops"])[0]
